@@ -654,9 +654,10 @@ class C06Monitor(histrun.Monitor):
             where = wh(w, col)
             by = {}
             for nm, mo in o["members"].items():
-                if mo["status"] != 200 or not nm.endswith(".ics"):
+                if mo["status"] != 200:
                     continue
-                uid = self.body_uid(mo["body"])
+                # every member whose served body is a calendar object counts, whatever its name looks like
+                uid = self.body_uid(mo["body"]) if (nm.endswith(".ics") or (mo["body"] or b"").lstrip()[:15].upper().startswith(b"BEGIN:VCALENDAR")) else None
                 if uid is not None:
                     by.setdefault(uid, []).append(nm)
             self.res.count("uid_audits")
